@@ -6,6 +6,7 @@ import sys, os, subprocess, json, shutil, tempfile, re
 prop, m, src = sys.argv[1:4]
 checks = sys.argv[4:]
 V = "/verif"
+VR = os.environ.get("SEED_EVAL_VERIF", V)      # a frozen copy of /verif to run the checks from (so that editing /verif meanwhile is harmless)
 dst = os.path.join(V, "seeded", "%s_%s" % (prop, m))
 os.makedirs(dst, exist_ok=True)
 patch = os.path.join(src, "patch.diff")
@@ -47,7 +48,7 @@ if res["confirmed"]:
         assert sh("git -C /repo worktree add -q --detach %s HEAD" % wt2)[0] == 0
         assert sh("git apply %s" % patch, cwd=wt2)[0] == 0
         for c in checks:
-            rc, out = sh("ALGOPY_VERIF_REPO=%s VERIF_OUT=%s timeout 1500 ./check %s" % (wt2, out2, c), cwd=V, timeout=1700)
+            rc, out = sh("ALGOPY_VERIF_REPO=%s VERIF_OUT=%s timeout 1500 ./check %s" % (wt2, out2, c), cwd=VR, timeout=1700)
             sigs = sorted(set(l.split("#", 1)[1].strip()[:120] for l in out.splitlines() if l.startswith("VIOLATION")))
             det[c] = {"exit": rc, "violations": sigs[:6]}
             if rc not in (0, 1):
@@ -73,7 +74,7 @@ try:
     meta["earlier_evaluations"] = hist
 except Exception:
     pass
-meta["verif_commit"] = sh("git -C %s log --format=%%h -1" % ("/verif"))[1].strip() + (" (snapshot)" if V != "/verif" else "")
+meta["verif_commit"] = sh("git -C %s log --format=%%h -1" % ("/verif"))[1].strip() + (" (snapshot)" if VR != "/verif" else "")
 meta.update({"breaks_property": prop, "confirmation": {k: res[k] for k in res if k not in ("detection",)},
              "checks_run": checks, "detection": det, "detected_by": res["detected_by"],
              "how_to_reproduce": "git -C /repo apply /verif/seeded/%s_%s/patch.diff; (cd /verif && ./check <id>); git -C /repo checkout -- ." % (prop, m)})
